@@ -1,85 +1,40 @@
-(* C17: the classes of the known findings, as executable definitions.
-   Each switch of xk_defects weakens (or, for one, strengthens) exactly one rule of Exec/Valid.v in the way
-   apollo-compiler is observed to deviate from it.  xk_exec_valid q is the specification's verdict with the
-   defects q "applied"; with every switch off it is xv_exec_valid.  The driver classifies a disagreement between
-   apollo-compiler and xv_exec_valid as KNOWN only if the verdict of xk_exec_valid with the switch(es) of listed
-   classes agrees with apollo-compiler; so each class is exactly as wide as the modelled deviation.
-   These are not deliberate differences (those are xv_params); nothing here is part of the specification.
-   Two further classes (variables and null items inside custom-scalar literals) were repaired in
-   validation/value.rs; their old definitions are at the end of the file, outside xk_defects. *)
+(* C17: the former known-finding classes of this property, as executable definitions, for the record.
+   Every class was a way apollo-compiler deviated from Exec/Valid.v on one rule; all are repaired in /repo, the
+   repaired code follows xv_exec_valid, and no disagreement is filtered any more.  Each xk_old_* definition below is
+   the rule as apollo-compiler computed it before the repair; Props/C17.v has, per repair, a theorem that it differs
+   from the specification on the former witness.  Nothing here is part of the specification or of the tie; nothing
+   is extracted.
+   These are not deliberate differences (those are xv_params). *)
 From ApolloVerif Require Import Base.Chars Ast.Ast Schema.Model Exec.Compat Exec.Valid.
 
-Record xk_defects := {
-  (* D12d (validation/value.rs, Variable case): a variable nested inside a list or input-object literal is
-     compared with the position only by the innermost named type, not by IsVariableUsageAllowed *)
-  xk_nested_variable_by_named_type : bool;
-  (* validation/operation.rs validate_subscription: root fields are counted through inline fragments and named
-     fragments whatever their type conditions; CollectFields (6.3.2) skips a fragment whose type condition does
-     not apply to the subscription root type *)
-  xk_subscription_ignores_type_conditions : bool }.
-
-Definition xk_none : xk_defects :=
-  {| xk_nested_variable_by_named_type := false; xk_subscription_ignores_type_conditions := false |}.
-
-(* 5.8.5 with the first defect *)
-Definition xk_r_variable_usages_allowed (q : xk_defects) (s : schema) (d : document) : bool :=
+(* ------------------------------------------------------------------------------------------------ *)
+(* D12d, nested-variable-checked-by-named-type-only, repaired in validation/value.rs (fixes/fix2-c17-2.patch;
+   Props/C17.v: C17_nested_variable_old_refuted).  In value_of_correct_type a variable nested inside a list or
+   input-object literal was compared with its position only by the innermost named type, not by
+   IsVariableUsageAllowed (5.8.5): a list-typed variable was accepted as a list item, a nullable variable (or one
+   with a null default) as the value of a non-null input field without default.  The Variable case now calls
+   is_variable_usage_allowed with the item type / the input field's type and whether the field has a default. *)
+Definition xk_old_r_variable_usages_allowed (s : schema) (d : document) : bool :=
   forallb (fun o => forallb (fun u => match xv_find_var (xu_name u) (xo_vars o), xu_loc u with
                                       | Some vd, Some loc =>
-                                          if xk_nested_variable_by_named_type q && xu_nested u
+                                          if xu_nested u
                                           then streq (inner_named_type (v_ty vd)) (inner_named_type (fst loc))
                                           else xv_usage_allowed vd loc
                                       | _, _ => true
                                       end) (xv_op_usages s (xv_frags d) o)) (xv_ops d).
-
-(* 5.2.3.1 with the second defect *)
-Definition xk_r_subscription_single_root (q : xk_defects) (p : xv_params) (s : schema) (d : document) : bool :=
-  forallb (xv_subscription_ok_gen (negb (xk_subscription_ignores_type_conditions q)) p s (xv_frags d)) (xv_ops d).
-
-Definition xk_rule_vector (q : xk_defects) (p : xv_params) (s : schema) (d : document) : list bool :=
-  [ xv_r_executable_definitions d;
-    xv_r_operation_name_unique d;
-    xv_r_lone_anonymous d;
-    xk_r_subscription_single_root q p s d;
-    xv_r_fields_defined s d;
-    xv_r_fields_merge s d;
-    xv_r_leaf_selections s d;
-    xv_r_argument_names s d;
-    xv_r_argument_unique s d;
-    xv_r_required_arguments s d;
-    xv_r_fragment_name_unique d;
-    xv_r_fragment_type_exists s d;
-    xv_r_fragment_on_composite s d;
-    xv_r_fragments_used d;
-    xv_r_spread_target_defined s d;
-    xv_r_no_fragment_cycles d;
-    xv_r_spread_possible p s d;
-    xv_r_values_correct_type s d;
-    xv_r_input_field_names s d;
-    xv_r_input_field_unique s d;
-    xv_r_input_required_fields s d;
-    xv_r_variable_unique d;
-    xv_r_variables_input_types s d;
-    xv_r_variables_defined s d;
-    xv_r_variables_used s d;
-    xk_r_variable_usages_allowed q s d;
-    xv_r_directives_defined s d;
-    xv_r_directive_locations s d;
-    xv_r_directives_unique s d;
-    xv_r_root_operation_defined p s d;
-    xv_r_subscription_no_skip_include p s d ].
-
-Definition xk_exec_valid (q : xk_defects) (p : xv_params) (s : schema) (d : document) : bool :=
-  forallb (fun b => b) (xk_rule_vector q p s d).
-
-(* the switches by number, for the driver: 0..1 in the order of the record *)
-Definition xk_single (i : N) : xk_defects :=
-  {| xk_nested_variable_by_named_type := i =? 0; xk_subscription_ignores_type_conditions := i =? 1 |}.
-Definition xk_of_mask (m : list bool) : xk_defects :=
-  {| xk_nested_variable_by_named_type := nth 0 m false; xk_subscription_ignores_type_conditions := nth 1 m false |}.
+(* the verdict as it was: the rule vector of Valid.v with the entry of 5.8.5 (position 25) replaced *)
+Fixpoint xk_old_set_nth {A} (n : nat) (x : A) (l : list A) : list A :=
+  match l, n with
+  | [], _ => []
+  | _ :: r, O => x :: r
+  | y :: r, S n => y :: xk_old_set_nth n x r
+  end.
+Definition xk_old_exec_valid_nested_variable (p : xv_params) (s : schema) (d : document) : bool :=
+  forallb (fun b => b) (xk_old_set_nth 25 (xk_old_r_variable_usages_allowed s d) (xv_rule_vector p s d)).
 
 (* ------------------------------------------------------------------------------------------------ *)
 (* Two former classes, repaired in validation/value.rs (fixes/fix-c17.patch); the deviations as they were, kept
-   only for the record (Props/C17.v: C17_scalar_literal_old_refuted).  Not part of xk_exec_valid, not extracted.
+   only for the record (Props/C17.v: C17_scalar_literal_old_refuted).  Not extracted.
 
    (1) undefined-variable-inside-custom-scalar-object: variables inside an object literal written for a custom
    scalar were not visited, and UndefinedVariable is only reported from value.rs: an undefined variable used in
@@ -123,3 +78,17 @@ Fixpoint xk_old_scalar_list_null (s : schema) (v : value) (t : ty) {struct v} : 
 Definition xk_old_r_values_correct_type (s : schema) (d : document) : bool :=
   xv_r_values_correct_type s d
   && negb (existsb (fun vt => xk_old_scalar_list_null s (fst vt) (snd vt)) (xv_typed_values s d)).
+
+(* ------------------------------------------------------------------------------------------------ *)
+(* A former class, repaired in validation/operation.rs (fixes/fix2-c17-1.patch); the deviation as it was, kept only
+   for the record (Props/C17.v: C17_subscription_conditions_old_refuted).  Not extracted.
+
+   subscription-root-fields-counted-ignoring-type-conditions: validate_subscription walked the root selection set
+   through inline fragments and named fragments whatever their type conditions, so fields that CollectFields
+   (6.3.2) never collects for the subscription root type were counted as root fields (5.2.3.1), reported as
+   introspection fields, and had their @skip/@include reported.  walk_selections now skips the selections of a
+   fragment whose type condition does not apply to the root type. *)
+Definition xk_old_r_subscription_single_root (p : xv_params) (s : schema) (d : document) : bool :=
+  forallb (xv_subscription_ok_gen false p s (xv_frags d)) (xv_ops d).
+Definition xk_old_r_subscription_no_skip_include : xv_params -> schema -> document -> bool :=
+  xv_r_subscription_no_skip_include_gen false.
